@@ -259,7 +259,7 @@ class Mesh2Spec(Spec):
             rng.randint(1, 3), rng.uniform(0.5, 2), rng.uniform(0.5, 2))))
         poly = Polygon2D.from_rectangle(Point2D(0, 0), Vector2D(0, 1), 10, 10)
         out.append(('from_polygon_grid', Mesh2D.from_polygon_grid(
-            poly, rng.choice([3.0, 2.0, 4.0]), rng.choice([3.0, 2.0, 4.0]),
+            poly, rng.choice([3.0, 3.5, 4.0]), rng.choice([3.0, 2.0, 4.0]),
             rng.random() < 0.5)))
         out.append(('from_polygon_triangulated', Mesh2D.from_polygon_triangulated(
             Polygon2D(star(rng, rng.randint(4, 8))))))
@@ -281,7 +281,7 @@ class Mesh2Spec(Spec):
         d['remove_faces'] = lambda x: _first(x.remove_faces(_fit(fp, len(x.faces))))
         d['remove_faces_only'] = lambda x: x.remove_faces_only(_fit(fp, len(x.faces)))
         d['triangulated'] = lambda x: x.triangulated()
-        d['join_meshes'] = lambda x: Mesh2D.join_meshes([x, x.move(Vector2D(50, 0))])
+        d['join_meshes'] = lambda x: Mesh2D.join_meshes([x, _warm(x.move(Vector2D(50, 0)))])
         return d
 
 
@@ -307,7 +307,8 @@ class Mesh3Spec(Spec):
                                                  rng.random() < 0.5)))
         except AssertionError:
             pass
-        f2 = Face3D([rand_plane(rng).xy_to_xyz(p) for p in star(rng, 6)])
+        pl2 = rand_plane(rng)
+        f2 = Face3D([pl2.xy_to_xyz(p) for p in star(rng, 6)])
         out.append(('triangulated_mesh3d', f2.triangulated_mesh3d))
         return out
 
@@ -323,8 +324,15 @@ class Mesh3Spec(Spec):
             _fit(vp, len(x.vertices))))
         d['remove_faces'] = lambda x: _first(x.remove_faces(_fit(fp, len(x.faces))))
         d['remove_faces_only'] = lambda x: x.remove_faces_only(_fit(fp, len(x.faces)))
-        d['join_meshes'] = lambda x: Mesh3D.join_meshes([x, x.move(Vector3D(50, 0, 0))])
+        d['join_meshes'] = lambda x: Mesh3D.join_meshes([x, _warm(x.move(Vector3D(50, 0, 0)))])
         return d
+
+
+def _warm(m):
+    """Fill the memo slots of a mesh (so that join_meshes has something to carry over)."""
+    m.face_centroids
+    m.face_areas
+    return m
 
 
 def _fit(p, n):
@@ -346,7 +354,7 @@ class FaceSpec(Spec):
     reads = ('area', 'perimeter', 'normal', 'centroid', 'is_clockwise', 'is_convex', 'min',
              'max', 'center', 'boundary_segments', 'is_self_intersecting', 'is_valid',
              'altitude', 'azimuth', 'polygon2d', 'boundary_polygon2d',
-             'triangulated_mesh3d', 'has_holes')
+             'tri_mesh_', 'has_holes')
 
     def starts(self, rng):
         out = []
@@ -369,7 +377,7 @@ class FaceSpec(Spec):
         return out
 
     def fresh(self, obj):
-        return Face3D(tuple(obj.boundary), None,
+        return Face3D(tuple(obj.boundary), obj.plane,
                       [tuple(h) for h in obj.holes] if obj.has_holes else None)
 
     def extra_ops(self, rng, obj):
@@ -379,15 +387,15 @@ class FaceSpec(Spec):
 class PolyfaceSpec(Spec):
     name = 'Polyface3D'
     dim = 3
-    reads = ('area', 'volume', 'is_solid', 'min', 'max', 'center', 'faces', 'edges',
-             'naked_edges', 'internal_edges', 'non_manifold_edges', 'edge_types',
-             'face_normals_')
+    reads = ('area', 'volume_', 'is_solid', 'min', 'max', 'center', 'faces', 'edges',
+             'naked_edges', 'internal_edges', 'non_manifold_edges', 'face_normals_')
 
     def starts(self, rng):
         out = []
         out.append(('from_box', Polyface3D.from_box(
             rng.uniform(1, 5), rng.uniform(1, 5), rng.uniform(1, 5), rand_plane(rng))))
-        f = Face3D([rand_plane(rng).xy_to_xyz(p) for p in star(rng, rng.randint(3, 6))])
+        pl2 = rand_plane(rng)
+        f = Face3D([pl2.xy_to_xyz(p) for p in star(rng, rng.randint(3, 6))])
         out.append(('from_offset_face', Polyface3D.from_offset_face(f, rng.uniform(1, 3))))
         box = Polyface3D.from_box(2, 3, 4)
         out.append(('from_faces', Polyface3D.from_faces(list(box.faces), 0.01)))
@@ -406,10 +414,34 @@ SPECS = [PolygonSpec(), Polyline2Spec(), Polyline3Spec(), Mesh2Spec(), Mesh3Spec
          FaceSpec(), PolyfaceSpec()]
 
 
+EDGE_PROPS = ('edges', 'naked_edges', 'internal_edges', 'non_manifold_edges')
+
+
+def _edge_key(seg, scale):
+    a = tuple(seg.p)
+    b = tuple(seg.p2)
+    q = 1e-6 * scale
+    ka = tuple(round(c / q) for c in a)
+    kb = tuple(round(c / q) for c in b)
+    return (ka, kb) if ka <= kb else (kb, ka)
+
+
 def read(obj, prop):
     if prop == 'face_normals_':
         return tuple(f.normal for f in obj.faces)
+    if prop == 'tri_mesh_':
+        # a triangulation is not unique: compare what is determined by the shape
+        m = obj.triangulated_mesh3d
+        return (m.area, len(m.faces), len(m.vertices))
+    if prop == 'volume_':
+        # the volume of an open polyface is documented as not valid
+        return obj.volume if obj.is_solid else None
     v = getattr(obj, prop)
+    if prop in EDGE_PROPS:
+        # edge lists are sets: the order in which a structure lists its edges is not
+        # part of its value (factories pre-seed a different but equivalent order)
+        sc = magnitude(obj)
+        return tuple(sorted(_edge_key(s, sc) for s in v))
     return v
 
 
@@ -550,3 +582,16 @@ def run(ctx):
                     'least one read and one transform',
             'samples': samples, 'failures': failures,
             'extra': {'histories_per_class': per_class}}
+
+
+def replay(ctx, fl):
+    spec = [sp for sp in SPECS if sp.name == fl['class']][0]
+    seed = fl['rng_seed'].split('/')[0]
+    start = spec.starts(random.Random('%s/c03/start/%s' % (seed, spec.name)))[fl['start_index']][1]
+    hist = [tuple(x) for x in fl['history']]
+    f = run_history(spec, start, hist, fl['rng_seed'])
+    if f is None:
+        return None
+    out = dict(fl)
+    out.update({'observed': f['observed'], 'expected': f['expected'], 'prop': f['prop']})
+    return out
